@@ -137,11 +137,43 @@ class Ctx:
         self._an = {}
 
     def an(self, fn):
-        a = self._an.get(fn.path)
+        key = (fn.path, bool(fn.j.get("flat")))
+        a = self._an.get(key)
         if a is None:
             a = Analysis(fn)
-            self._an[fn.path] = a
+            self._an[key] = a
         return a
+
+    def flat(self, fn):
+        """`fn` with every crate-local callee spliced in (anchors included) and
+        jump-threaded: the behaviour of an entry point as one body, independent
+        of how it is cut into helper functions.  Closures and unresolved trait
+        calls stay calls."""
+        if not hasattr(self, "_flat"):
+            self._flat = {}
+        f = self._flat.get(fn.path)
+        if f is None:
+            import copy
+            import inline
+            import thread
+            from facts import Fn
+            fj = copy.deepcopy(fn.j)
+            fj["flat"] = True
+            by_path = {}
+            for g in self.facts.all_fns:
+                by_path.setdefault(g.path, g.j)
+            stats = {}
+            for _ in range(6):
+                if not inline.inline_into(fj, by_path, set(), stats):
+                    break
+            try:
+                thread.thread_fn(fj)
+            except Exception as exc:
+                fj["thread_error"] = str(exc)
+            fj["flat_inlined"] = stats.get(fn.path, [])
+            f = Fn(fj, self.facts)
+            self._flat[fn.path] = f
+        return f
 
     # -- lookups that do not depend on local names ----------------------
     def enr_methods(self):
